@@ -335,8 +335,26 @@ def fam_azimuthal(ctx, rng):
         hs.append(hvsrpy.HvsrTraditional(f, amp))
     hv = hvsrpy.HvsrAzimuthal(hs, list(np.sort(rng.uniform(0, 180, naz))))
     kw = gen_kw(rng, f)
+    past = "none"
+    if naz >= 2 and rng.random() < 0.4:
+        # the object has a past: (an earlier run of the same request on the whole object, then) ONE azimuth looked at on
+        # its own with another search range through the same public function - the request made now holds for every azimuth
+        kw["find_peaks_kwargs"] = {}
+        past = "one azimuth treated separately"
+        with np.errstate(all="ignore"):
+            try:
+                if rng.random() < 0.5:
+                    hvsrpy.frequency_domain_window_rejection(hv, **kw)
+                    past = "same request before, then " + past
+                else:
+                    kw["search_range_in_hz"] = (None, None)
+                hvsrpy.frequency_domain_window_rejection(hv.hvsrs[int(rng.integers(1, naz))], n=2.0,
+                                                         search_range_in_hz=histories.rand_range(rng, f), find_peaks_kwargs={})
+            except ValueError:
+                past += " (a refusal on the way)"
+        ctx.count("azimuthal_objects_with_a_past")
     r = judge_call(ctx, hv, kw, "azimuthal")
-    ctx.describe(kind="azimuthal", n_azimuths=naz, n_curves=[int(h.n_curves) for h in hv.hvsrs],
+    ctx.describe(kind="azimuthal", n_azimuths=naz, past=past, n_curves=[int(h.n_curves) for h in hv.hvsrs],
                  **{k: (list(v) if isinstance(v, tuple) else v) for k, v in kw.items()}, returned=None if r is None else r["ret"])
     if r is not None and (r["rejected"] or r["ret"] >= 2):
         ctx.nontrivial(["az", naz, [int(h.n_curves) for h in hv.hvsrs], kw["n"], kw["max_iterations"], r["ret"], r["rejected"]])
